@@ -10,10 +10,7 @@
 From PV Require Import Lib.Base Cbor.Item Cbor.Enc Cbor.Dec Cbor.HeadLaws Cbor.Laws.
 Open Scope Z_scope.
 
-(* the error produced by [Error::type_mismatch(self.type_of(b)?)] after [b] was consumed;
-   [r] is the input after [b] *)
-Definition mismatch {A} (b : Z) (r : list Z) : dres A :=
-  if (56 <=? b) && (b <=? 59) then match r with _ :: _ :: _ => DErr | _ => DEoi end else DErr.
+(* [mismatch b r] (Dec.v): the error of [Error::type_mismatch(self.type_of(b)?)] after [b] was consumed *)
 
 (* read one head whose major type satisfies [ok]; anything else is a type mismatch *)
 Definition expect_head (ok : major -> bool) (bs : list Z) : dres (harg * list Z) :=
